@@ -188,7 +188,9 @@ func consumers(r *vlib.Run) {
 	})
 	// ignore lists: which packages get loaded
 	pkgs := []string{"", "a", "a/b", "c", "ab", "c/a"}
-	ignPool := []string{"a", "a/*", "a/**", "*", "c", "?", "a*", "**/b", "**/a", "ab", "c/a", "*/a"}
+	ignPool := []string{"a", "a/*", "a/**", "*", "c", "?", "a*", "**/b", "**/a", "ab", "c/a", "*/a",
+		// entries that are not lexically clean paths are patterns like any other (no normalisation)
+		"./a", "a/", "c/**/../a", "a//b"}
 	var ign [][]string
 	for _, p := range ignPool {
 		ign = append(ign, []string{p})
